@@ -16,6 +16,8 @@ CLAUSE = ("vbi_teletext_desync marks the page in progress of every one of the ra
           "X/26 triplet ends the packet (the error edge cannot reach the next iteration).")
 CLAUSE = CLAUSE + (" An unchecked decode result is not handed to another function either, unless that function tests the "
                    "parameter for `< 0` before every other use (parse_mip_page's code).")
+CLAUSE = CLAUSE + (" No decode-failure edge leaves an inner table loop of packet.c into the enclosing loop (cursor and index "
+                   "would lose their lock step).")
 NOT_DECIDED = ("that a single-bit error is corrected to the sent value (Hamming arithmetic, test-hamm's domain); display of the "
                "formatted page; X/26 designation continuity semantics beyond the error edge.")
 
@@ -107,6 +109,7 @@ def run(ctx, run):
     _raw_bytes_decoded(ctx, run)
     _same_header_parity(ctx, run, P.need("same_header", UNIT))
     neg.helper_contract(ctx, run)
+    _lockstep_exit(ctx, run)
 
 
 def _field(f, lhs):
@@ -492,3 +495,72 @@ def _same_header_parity(ctx, run, f):
                       "header with a parity error is compared as if it were intact, found different, and taken for another "
                       "station - the cache is flushed" % ("current" if cur not in roots else "reference", sorted(roots) or "nothing"),
                       "%s:%d" % (f.file, f.line), witness={"checked": sorted(roots)})
+
+
+def _lockstep_exit(ctx, run):
+    """RF-CORR: the table parsers walk a packet with a byte cursor and a table index that advance
+    in lock step (`*raw++` in the body, `index++` in the loop increment), group by group in an
+    outer loop.  An uncorrectable byte may skip its own entry (`continue`) or abandon the packet
+    (`return`), but must not leave the inner loop into the outer one (`break`): the byte has been
+    consumed, the index has not moved over the rest of the group, and every later entry of the
+    packet is stored for the wrong page."""
+    from .. import loops
+    P = ctx.prog
+    n = 0
+    for f in P.funcs:
+        if f.file != UNIT:
+            continue
+        L = loops.natural_loops(f)
+        if len(L) < 2:
+            continue
+        for ih, inner in L.items():
+            outers = [oh for oh, ob in L.items() if oh != ih and ih in ob and inner < ob]
+            if not outers:
+                continue
+            oh = min(outers, key=lambda h: len(L[h]))
+            outer = L[oh]
+            for b in inner:
+                t = f.blocks[b].term
+                if not t or "cond" not in t:
+                    continue
+                for s, lab in f.edges(b):
+                    if lab not in ("T", "F") or s in inner or s not in outer:
+                        continue
+                    # the edge leaves the inner loop but stays in the outer one: is it a decode-failure edge?
+                    dec = False
+                    for a in atoms.edge_atoms(f, b, lab):
+                        if a.rel == "<" and a.R is not None and a.R.const == 0:
+                            if a.L.calls & set(neg.SOURCES):
+                                dec = True
+                            for nm in a.L.locals:
+                                if _assigned_from_decoder(f, nm):
+                                    dec = True
+                    if not dec:
+                        continue
+                    n += 1
+                    run.touch(f)
+                    run.violation("RF-CORR", "RF-CORR:%s:lockstep-exit" % f.name,
+                                  "%s(): on an uncorrectable byte control leaves the inner loop (`break`) into the enclosing loop, "
+                                  "which goes on consuming the packet: the byte cursor has passed the bad byte, the table index has "
+                                  "not been advanced over the rest of the group, so the remaining entries of the packet are stored "
+                                  "for the wrong pages - the error is not contained" % f.name,
+                                  "%s:%d" % (f.file, t.get("line", f.line)))
+    if n == 0:
+        run.holds("RF-CORR", "RF-CORR:packet.c:lockstep-exit", "no decode-failure edge leaves an inner table loop into the enclosing "
+                  "loop (a damaged entry is skipped with `continue` or the packet is abandoned)", UNIT, nontrivial=False)
+
+
+def _assigned_from_decoder(f, name):
+    for bid, i in flow.all_events(f):
+        for lhs, var, op, rhs in flow.stores(f, i):
+            if rhs is None:
+                continue
+            nm = var["name"] if var is not None else (f.exprs[ex.skip(f, lhs)].get("name") if f.exprs[ex.skip(f, lhs)]["k"] == "ref" else None)
+            if nm != name:
+                continue
+            r = f.exprs[ex.skip(f, rhs)]
+            while r["k"] == "cast":
+                r = f.exprs[ex.skip(f, r["c"][0])]
+            if r["k"] == "call" and r.get("callee") in neg.SOURCES:
+                return True
+    return False
